@@ -37,7 +37,7 @@ def check_doc(case) -> Result:
     except Exception as e:
         r.rejected = f"convert:{type(e).__name__}"
         return r
-    stats = rendercmp.compare(src, out, r, what=("stack", "rgba"), strokes=False, gradients=False)
+    stats = rendercmp.compare(src, out, r, what=("stack", "rgba"), strokes=False, gradients=False, attribute=not case.get("pinned"))
     feat = case.get("feat", [])
     r.classes = tuple(feat)
     if stats and not r.rejected:
